@@ -188,6 +188,9 @@ def run(case):
             if not isinstance(out, NDCubeSequence):
                 fails.append(f"slice on the common axis returned {type(out).__name__}")
                 pieces = []
+            elif type(out) is not type(seq):
+                fails.append(f"the result is a {type(out).__name__}, the sequence is a {type(seq).__name__}")
+                pieces = []
             else:
                 pieces = list(out.data)
                 nca = ca - sum(1 for it in items[:ca] if not isinstance(it, dict))
